@@ -124,6 +124,20 @@ func (pc *propCheck) runWitness(w *witness, extraArgs ...string) witnessOutcome 
 		o.Behaved = !o.Crashed && o.Exit == 0
 	case w.Expect == "nocrash":
 		o.Behaved = !o.Crashed
+	case strings.HasPrefix(w.Expect, "order:"):
+		// order:A<B — Definition A must appear before Definition B
+		ab := strings.SplitN(strings.TrimPrefix(w.Expect, "order:"), "<", 2)
+		find := func(n string) int {
+			if i := strings.Index(o.Coq, "Definition "+n+":"); i >= 0 {
+				return i
+			}
+			return strings.Index(o.Coq, "Definition "+n+" ")
+		}
+		ia, ib := find(ab[0]), find(ab[1])
+		o.Behaved = !o.Crashed && o.Exit == 0 && ia >= 0 && ib >= 0 && ia < ib
+		if !o.Behaved && !o.Crashed && o.Exit == 0 {
+			o.Observed += fmt.Sprintf("; Definition %s at offset %d, Definition %s at offset %d (use before definition)", ab[0], ia, ab[1], ib)
+		}
 	case strings.HasPrefix(w.Expect, "notcontains:"):
 		o.Behaved = !o.Crashed && !strings.Contains(o.Coq, strings.TrimPrefix(w.Expect, "notcontains:"))
 		if !o.Behaved && !o.Crashed {
